@@ -32,12 +32,15 @@ pub struct Read;
 
 // ------------------------------------------------------------------------------------- oracle
 
-/// largest single request allowed: `K_SINGLE * n + C_SINGLE` bytes
-const K_SINGLE: u64 = 64;
+/// largest single request allowed: `K_SINGLE * n + C_SINGLE` bytes (`K_SINGLE` = the `K` of the
+/// Lean theorem `alloc_backed`; over 77 000 generated cases the real reader stays below 4n + 64 KiB)
+const K_SINGLE: u64 = 32;
 const C_SINGLE: u64 = 64 * 1024;
-/// total requested allowed: `K_TOTAL * n^2 + C_TOTAL_LIN * n + C_TOTAL` bytes
-const K_TOTAL: u64 = 64;
-const C_TOTAL_LIN: u64 = 4096;
+/// total requested allowed per operation: `K_TOTAL * n^2 + C_TOTAL_LIN * n + C_TOTAL` bytes. The
+/// worst quadratic families that can be built for the modelled streams (aliased module names /
+/// CodeView records / handle chains) stay below 0.1 n^2; generated cases never leave the linear part.
+const K_TOTAL: u64 = 2;
+const C_TOTAL_LIN: u64 = 1024;
 const C_TOTAL: u64 = 4 * 1024 * 1024;
 /// per-case time budget (a hang never ends, so the exact figure only has to absorb machine load)
 fn time_budget(n: usize) -> Duration {
@@ -47,7 +50,7 @@ fn time_budget(n: usize) -> Duration {
 /// worker threads left behind (parked by the allocator guard, or spinning); beyond `MAX_STUCK` the
 /// remaining cases of the run are skipped — the run has failed already.
 static STUCK: std::sync::atomic::AtomicUsize = std::sync::atomic::AtomicUsize::new(0);
-const MAX_STUCK: usize = 12;
+const MAX_STUCK: usize = 6;
 
 thread_local! {
     static LAST_PANIC: std::cell::RefCell<String> = const { std::cell::RefCell::new(String::new()) };
@@ -74,12 +77,46 @@ fn install_hook() {
 struct Out {
     oracle: Vec<(String, String)>,
     tags: Vec<String>,
+    /// input length
+    n: u64,
+    shared: Arc<meter::Shared>,
+    /// phase B: the allocator is read out after every guarded operation
+    per_op: bool,
+    /// phase B totals (sum over the operations), for the distribution
+    b: meter::Stats,
+}
+
+fn alloc_limits(n: u64) -> (u64, u64) {
+    (K_SINGLE * n + C_SINGLE, K_TOTAL.saturating_mul(n).saturating_mul(n) + C_TOTAL_LIN * n + C_TOTAL)
 }
 
 impl Out {
+    fn check_alloc(&mut self, what: &str, st: &meter::Stats) {
+        let (lim_single, lim_total) = alloc_limits(self.n);
+        let n = self.n;
+        if st.max > lim_single && self.oracle.len() < 8 {
+            self.oracle.push((format!("alloc-single:{what}"), format!("{what}: one request of {} bytes for a {n}-byte input (limit {lim_single})", st.max)));
+        }
+        if st.total > lim_total && self.oracle.len() < 8 {
+            self.oracle.push((format!("alloc-total:{what}"), format!("{what}: {} bytes requested in total for a {n}-byte input (limit {lim_total} = {K_TOTAL}n^2+{C_TOTAL_LIN}n+{C_TOTAL})", st.total)));
+        }
+    }
+
     /// run `f`; a panic becomes an oracle failure of class `panic` naming `what` and the site
     fn guard<T>(&mut self, what: &str, f: impl FnOnce() -> T) -> Option<T> {
-        match catch(f) {
+        if let Ok(mut g) = self.shared.current_op.lock() {
+            g.clear();
+            g.push_str(what);
+        }
+        let r = catch(f);
+        if self.per_op {
+            let st = meter::lap();
+            self.check_alloc(what, &st);
+            self.b.total += st.total;
+            self.b.count += st.count;
+            self.b.max = self.b.max.max(st.max);
+        }
+        match r {
             Ok(v) => Some(v),
             Err(_) => {
                 let site = LAST_PANIC.with(|p| p.borrow().clone());
@@ -536,8 +573,9 @@ fn sweep(dump: &Dump, o: &mut Out) {
     });
     macro_rules! simple_print {
         ($t:ty, $name:literal) => {
+            let _ = $name;
             let cls = o
-                .guard($name, || match dump.get_stream::<$t>() {
+                .guard(concat!("get_stream::<", stringify!($t), "> + print"), || match dump.get_stream::<$t>() {
                     Ok(s) => {
                         let _ = s.print(&mut sink);
                         Some("ok")
@@ -573,8 +611,9 @@ fn sweep(dump: &Dump, o: &mut Out) {
     });
     macro_rules! text_stream {
         ($t:ty, $name:literal) => {
+            let _ = $name;
             let cls = o
-                .guard($name, || match dump.get_stream::<$t>() {
+                .guard(concat!("get_stream::<", stringify!($t), "> + iter"), || match dump.get_stream::<$t>() {
                     Ok(s) => {
                         let _ = s.iter().count();
                         let _ = s.raw_bytes().len();
@@ -614,7 +653,7 @@ struct CaseOut {
 }
 
 fn run_case(all: &[u8], shared: &Arc<meter::Shared>) -> CaseOut {
-    let mut o = Out { oracle: vec![], tags: vec![] };
+    let mut o = Out { oracle: vec![], tags: vec![], n: all.len() as u64, shared: shared.clone(), per_op: false, b: Default::default() };
     meter::start(shared);
     let mut nontrivial = false;
     let line;
@@ -670,10 +709,13 @@ fn run_case(all: &[u8], shared: &Arc<meter::Shared>) -> CaseOut {
         }
     }
     let a = meter::lap();
+    o.check_alloc("Minidump::read + get_stream of the modelled streams", &a);
+    o.per_op = true;
     if let Some(dump) = &dump_opt {
         sweep(dump, &mut o);
     }
-    let b = meter::stop();
+    let _ = meter::stop();
+    let b = o.b.clone();
     CaseOut { line, oracle: o.oracle, tags: o.tags, nontrivial, a, b }
 }
 
@@ -1587,8 +1629,8 @@ impl Engine for Read {
     }
 
     fn same(&self, impl_out: &str, model_out: &str) -> bool {
-        if impl_out == "SKIPPED" {
-            return true;
+        if matches!(impl_out, "SKIPPED" | "RUNAWAY-ALLOC" | "HANG" | "WORKER-DIED") {
+            return true; // no answer to compare; the oracle has reported the case (or it was skipped)
         }
         let (Some((il, ir)), Some((ml, mr))) = (impl_out.split_once(" ## "), model_out.split_once(" ## ")) else {
             return false;
@@ -1669,15 +1711,19 @@ impl Engine for Read {
                 res.nontrivial = r.nontrivial;
                 res.tags.extend(r.tags);
                 let n64 = n as u64;
-                for (phase, st) in [("read+get_stream", &r.a), ("accessors+print", &r.b)] {
-                    let lim = K_SINGLE * n64 + C_SINGLE;
-                    if st.max > lim {
-                        res.oracle.push(("alloc-single".into(), format!("{phase}: one request of {} bytes for a {n}-byte input (limit {lim})", st.max)));
-                    }
-                    let lim = K_TOTAL.saturating_mul(n64).saturating_mul(n64) + C_TOTAL_LIN * n64 + C_TOTAL;
-                    if st.total > lim {
-                        res.oracle.push(("alloc-total".into(), format!("{phase}: {} bytes requested in total for a {n}-byte input (limit {lim})", st.total)));
-                    }
+                // how close the case came to the limits (distribution only)
+                let worst_total = r.a.total.max(r.b.total);
+                let lin = C_TOTAL_LIN * n64 + C_TOTAL;
+                if worst_total > lin && n64 > 0 {
+                    let ratio = (worst_total - lin) as f64 / (n64 as f64 * n64 as f64);
+                    let bucket = if ratio < 0.25 { "<0.25" } else if ratio < 1.0 { "<1" } else if ratio < 2.0 { "<2" } else if ratio < 4.0 { "<4" } else { ">=4" };
+                    res.tags.push(format!("alloc-total-over-linear/n^2{bucket}"));
+                }
+                let worst_single = r.a.max.max(r.b.max);
+                if worst_single > C_SINGLE && n64 > 0 {
+                    let ratio = (worst_single - C_SINGLE) / n64;
+                    let bucket = if ratio < 4 { "<4" } else if ratio < 16 { "<16" } else if ratio < 32 { "<32" } else { ">=32" };
+                    res.tags.push(format!("alloc-single-over-const/n{bucket}"));
                 }
                 let ms = t0.elapsed().as_millis();
                 if ms > 2000 {
@@ -1689,19 +1735,20 @@ impl Engine for Read {
                 // (with whatever it holds), so only a bounded number of them is tolerated.
                 STUCK.fetch_add(1, std::sync::atomic::Ordering::SeqCst);
                 let req = shared.runaway_request.load(std::sync::atomic::Ordering::SeqCst);
+                let op = shared.current_op.lock().map(|g| g.clone()).unwrap_or_default();
                 if req != 0 {
                     let total = shared.runaway_total.load(std::sync::atomic::Ordering::SeqCst);
                     res.out = "RUNAWAY-ALLOC".into();
                     res.oracle.push((
-                        "alloc-runaway".into(),
-                        format!("a {n}-byte input made the reader request {req} bytes at once / {total} bytes in total — stopped by the allocator guard (single > {} or total > {})", meter::HARD_SINGLE, meter::HARD_TOTAL),
+                        format!("alloc-runaway:{op}"),
+                        format!("{op}: a {n}-byte input made the reader request {req} bytes at once / {total} bytes in total — stopped by the allocator guard (single > {} or total > {})", meter::HARD_SINGLE, meter::HARD_TOTAL),
                     ));
                 } else if worker.is_finished() {
                     res.out = "WORKER-DIED".into();
                     res.oracle.push(("panic".into(), "the case thread died outside catch_unwind (stack overflow / abort path)".into()));
                 } else {
                     res.out = "HANG".into();
-                    res.oracle.push(("hang".into(), format!("no result within {:?} for a {n}-byte input", time_budget(n))));
+                    res.oracle.push((format!("hang:{op}"), format!("{op}: no result within {:?} for a {n}-byte input", time_budget(n))));
                 }
             }
         }
@@ -1710,6 +1757,10 @@ impl Engine for Read {
 
     fn shrink(&self, case: &str, still_fails: &dyn Fn(&str) -> bool) -> String {
         let Some((mut bytes, cat)) = parse_case(case) else { return case.to_string() };
+        if STUCK.load(std::sync::atomic::Ordering::SeqCst) > 0 {
+            // re-running a case that leaves a stuck worker behind costs up to 1 GiB each time
+            return case.to_string();
+        }
         let t0 = Instant::now();
         let mut evals = 0;
         let mut ok = |b: &[u8], evals: &mut u32| -> bool {
